@@ -382,7 +382,7 @@ def cases(draw):
 
 
 def jobs(tier, seed):
-    n, shards = (2000, 8) if tier == "quick" else (28000, 16)
+    n, shards = (2000, 8) if tier == "quick" else (112000, 16)
     out = [{"name": "sequences", "kind": "seq"}]
     out += [{"name": f"hyp-{i}", "kind": "hyp", "seed": seed * 1000 + i, "n": n // shards} for i in range(shards)]
     return out
